@@ -681,6 +681,7 @@ func runAll(ctx *bex.Ctx) {
 	if ctx.Expired() {
 		return
 	}
+	h.longLists(p)
 	h.chainSpaces(p)
 }
 
